@@ -20,6 +20,8 @@ EXTRA = {"C01-C": ["C07"], "C02-C": ["C16", "C10"], "C03-C": ["C16", "C10"], "C0
          "C10-G": ["C17", "C05"], "C10-H": ["C08"], "C03-G": ["C10"], "C03-H": ["C16"], "C11-G": ["C12"], "C11-H": ["C12"], "C16-G": ["C17"], "C16-H": ["C10"], "C17-G": ["C06"], "C17-H": ["C18"], "C18-G": ["C04", "C09"], "C18-H": ["C11"],
          "C01-I": ["C07"], "C01-J": ["C07"], "C07-I": ["C01"], "C07-J": ["C01"], "C12-J": ["C17"], "C13-I": ["C14"], "C13-J": ["C14"], "C14-I": ["C01"], "C14-J": ["C01"], "C15-I": ["C05"], "C15-J": ["C05"],
          "C19-I": ["C01"], "C19-J": ["C01", "C07"], "C04-I": ["C08"], "C04-J": ["C08"], "C06-I": ["C01"], "C06-J": ["C01"],
+         "C02-K": ["C09"], "C02-L": ["C10"], "C03-K": ["C02"], "C03-L": ["C02"], "C05-K": ["C08"], "C05-L": ["C12"], "C08-K": ["C02"], "C08-L": ["C10"], "C09-K": ["C02"], "C09-L": ["C03"],
+         "C10-K": ["C02", "C03"], "C10-L": ["C08"], "C11-L": ["C10"], "C16-K": ["C17"], "C16-L": ["C04"], "C17-L": ["C16"], "C18-K": ["C16"], "C18-L": ["C02"],
          "C15-E": ["C05"], "C15-F": ["C05"], "C17-F": ["C18"], "C19-E": ["C01"], "C19-F": ["C01"],
          "C02-B": ["C16"], "C05-B": ["C16"], "C07-B": ["C17"], "C13-B": ["C17"], "C03-B": ["C10"], "C10-A": ["C03"], "C16-B": ["C05"], "C08-B": ["C03", "C04"], "C01-B": ["C06"], "C06-B": ["C01"]}
 
